@@ -121,6 +121,10 @@ fn main() {
     if prop == "c14b" {
         strict_err = Some(c14b::generate(&mut s, thorough));
     }
+    #[cfg(feature = "c14c")]
+    if prop == "c14c" {
+        strict_err = Some(c14c::generate(&mut s, thorough));
+    }
     #[cfg(feature = "c15")]
     if prop == "c15" {
         strict_err = Some(c15::generate(&mut s, thorough));
